@@ -215,7 +215,7 @@ def locations(vd, drv, wd, rng, tier):
         raise common.ToolError("Loc.tla: the pinned switch is not caught\n" + rp.out[-1500:])
     r = tlc.run_tlc("LocGen", constants={"OutFile": out, "MutSeen": "none", "PinnedOps": False}, workers=1, timeout=900)
     if not r.ok or not os.path.exists(out):
-        if "ssumption" in r.out:
+        if "ssumption" in r.out and "is false" in r.out:
             vd.observe("model:location / abbreviation laws", {"output": r.out[-3000:]})
         raise common.ToolError("LocGen failed\n" + r.out[-2000:])
     vecs = [json.loads(l) for l in open(out) if l.strip()]
